@@ -305,6 +305,13 @@ def run_sites_time(ctx, n, model_ok):
                                "node without mn metadata", rp)
             continue
         m = next(mi)
+        if ts.num_sites == 0:
+            # no sites: the documented ValueError; the model answers None
+            expect_value_error(ctx, c["impl"], "no-sites", "a tree sequence without sites", rp)
+            if model_ok:
+                ctx.corr("sites_time_from_ts", m is None and isinstance(c["impl"], str),
+                         "no sites: model %r, implementation %r" % (m, c["impl"]), replay=rp)
+            continue
         if isinstance(c["impl"], str):
             ctx.oracle_fail("unexpected-error|" + c["impl"][:40], "sites_time_from_ts(%r) raised %s" % (c["kw"], c["impl"]), rp)
             continue
@@ -452,7 +459,7 @@ def argument_checks(ctx):
 
 def run(ctx, model_ok=True):
     argument_checks(ctx)
-    run_sites_time(ctx, ctx.n(200, 3000), model_ok)
+    run_sites_time(ctx, ctx.n(150, 3000), model_ok)
     run_unconstrained(ctx, ctx.n(40, 400), model_ok)
     run_sampledata(ctx, ctx.n(15, 200), model_ok)
 
